@@ -90,34 +90,35 @@ def floatErf (x : Float) : Float :=
   if a <= 3.0 then erfSeries x
   else if x > 0.0 then 1.0 - erfcFrac a else -(1.0 - erfcFrac a)
 
-/-- libm table (Python's `math`/numpy use the same C library functions) -/
-def floatTab : FunTab Float where
-  heav := heaviside
-  cmp := cmpVal
-  f0 := fun c => if c = "pi" then floatPi else if c = "E" then Float.exp 1.0 else 0.0
-  f1 := fun f x =>
-    if f = "sin" then Float.sin x else if f = "cos" then Float.cos x
-    else if f = "tan" then Float.tan x else if f = "exp" then Float.exp x
-    else if f = "log" then Float.log x else if f = "sqrt" then Float.sqrt x
-    else if f = "tanh" then Float.tanh x else if f = "sinh" then Float.sinh x
-    else if f = "cosh" then Float.cosh x else if f = "atan" then Float.atan x
-    else if f = "asin" then Float.asin x else if f = "acos" then Float.acos x
-    else if f = "asinh" then Float.asinh x else if f = "atanh" then Float.atanh x
-    else if f = "floor" then Float.floor x else if f = "ceiling" then Float.ceil x
-    else if f = "erf" then floatErf x
-    else if algFun1 f then (algTab : FunTab Float).f1 f x
-    else 0.0 / 0.0
-  f2 := fun f x y =>
-    if f = "pow" then Float.pow x y
-    else if f = "hypot" then Float.sqrt (x * x + y * y)
-    else if f = "atan2" then Float.atan2 x y
-    else if algFun2 f then (algTab : FunTab Float).f2 f x y
-    else 0.0 / 0.0
+/-- libm (Python's `math`/numpy use the same C library functions); `floatErf` above -/
+def floatPrims : Prims Float where
+  pi := floatPi
+  e := Float.exp 1.0
+  sin := Float.sin
+  cos := Float.cos
+  tan := Float.tan
+  exp := Float.exp
+  log := Float.log
+  sqrt := Float.sqrt
+  tanh := Float.tanh
+  sinh := Float.sinh
+  cosh := Float.cosh
+  atan := Float.atan
+  asin := Float.asin
+  acos := Float.acos
+  asinh := Float.asinh
+  atanh := Float.atanh
+  floor := Float.floor
+  ceil := Float.ceil
+  erf := floatErf
+  pow := Float.pow
+  atan2 := Float.atan2
 
-def floatFun1 : List String :=
-  ["sin", "cos", "tan", "exp", "log", "sqrt", "tanh", "sinh", "cosh", "atan", "asin", "acos",
-   "asinh", "atanh", "floor", "ceiling", "erf", "abs", "Abs", "sign"]
-def floatFun2 : List String := ["pow", "hypot", "atan2", "Max", "Min"]
+/-- the table of the theorems (`PdeVerif.Ex.primTab`) at libm's primitives -/
+def floatTab : FunTab Float := primTab floatPrims
+
+def floatFun1 : List String := primFun1 ++ ["abs", "Abs", "sign"]
+def floatFun2 : List String := primFun2 ++ ["Max", "Min"]
 
 /-- every function name of the expression is interpreted (by the table or a user definition) -/
 def knownFuns (u1 u2 : List String) : Expr → Bool
